@@ -61,10 +61,11 @@ def shard_jobs(prop, tier, bins, work):
             k += 1
             sd = base + k
 
-            def record(path, mode=mode, obs=obs, extra=extra, sd=sd, nev=nev):
-                vf.run([bins["rec-board"], "-mode", mode, "-obs", obs, "-n", str(nev), "-seed", str(sd),
-                        "-corpus", CORPUS, "-out", path] + list(extra), timeout=900)
-            jobs.append(dict(name="%s-%s-%d" % (prop, mode, i), record=record))
+            args = ["-mode", mode, "-obs", obs, "-n", str(nev), "-seed", str(sd)] + list(extra)
+
+            def record(path, args=args):
+                vf.run([bins["rec-board"]] + args + ["-corpus", CORPUS, "-out", path], timeout=900)
+            jobs.append(dict(name="%s-%s-%d" % (prop, mode, i), record=record, args=args))
     return jobs
 
 
@@ -134,8 +135,9 @@ def conclude(prop, tier, res, model, t0, extra_cov=None):
     infra = [m for m in res.mm if m["rule"].startswith("INFRA/")]
     if infra:
         raise vf.Infra("recorder/generator contract broken: %s" % json.dumps(infra[:3]))
-    mine = [m for m in res.mm if m["rule"].startswith(RULES[prop])]
-    other = [m for m in res.mm if not m["rule"].startswith(RULES[prop])]
+    # an engine panic during the operations this property quantifies over counts against this property
+    mine = [m for m in res.mm if m["rule"].startswith(RULES[prop]) or m["rule"].startswith("PANIC/")]
+    other = [m for m in res.mm if m not in mine]
     for m in other[:5]:
         vf.log("note: mismatch outside %s (judged by its own check): %s %s" % (prop, m["rule"], m.get("class", "")))
     known, new = vf.classify(prop, mine)
@@ -146,7 +148,7 @@ def conclude(prop, tier, res, model, t0, extra_cov=None):
         seen_rules[r] = seen_rules.get(r, 0) + 1
         if seen_rules[r] > 2 or len(paths) >= 6:
             continue
-        script = tc.script_of(m["file"], m["l"])
+        script = tc.script_of(m["file"], m["l"]) if not r.startswith("PANIC/") else {"recorder_args": m.get("args")}
         name = "%s-%d" % (r.split("/")[1], len(paths))
         paths.append(vf.write_replay(prop, name, {"property": prop, "kind": "board-script", "obs": REPLAY_OBS[prop],
                                                     "script": script, "rejected": {k: v for k, v in m.items() if k not in ("file",)}}))
@@ -175,7 +177,11 @@ def conclude(prop, tier, res, model, t0, extra_cov=None):
 def do_replay(prop, replay, bins, work):
     rp = json.load(open(replay))
     sc = rp["script"]
-    if "event" in sc:
+    path = os.path.join(work, "replay.ndjson")
+    if "recorder_args" in sc:
+        # an engine panic: re-run the very same recorder invocation (deterministic in its seed)
+        vf.run([bins["rec-board"]] + sc["recorder_args"] + ["-corpus", CORPUS, "-out", path], timeout=900)
+    elif "event" in sc:
         path = os.path.join(work, "replay.ndjson")
         # self-contained event (transposition pair / uci position): re-execute through the recorder
         with open(os.path.join(work, "ev.json"), "w") as f:
@@ -187,7 +193,7 @@ def do_replay(prop, replay, bins, work):
         path = os.path.join(work, "replay.ndjson")
         vf.run([bins["rec-board"], "-mode", "script", "-obs", rp.get("obs", REPLAY_OBS[prop]), "-in", os.path.join(work, "script.json"), "-out", path], timeout=300)
     _, mm, total = tc.validate_trace(work, "GameTrace", path)
-    mine = [m for m in mm if m["rule"].startswith(RULES[prop])]
+    mine = [m for m in mm if m["rule"].startswith(RULES[prop]) or m["rule"].startswith("PANIC/")]
     known, new = vf.classify(prop, mine)
     for m in mine:
         vf.log("replay mismatch: %s" % json.dumps(m))
